@@ -437,10 +437,131 @@ def r6(ctx, r):
     r.expect(dr.count("dropped") >= 1, cl, None, "prune source", "the in-memory pruning does not iterate the dropped list", okdesc="pruning iterates `dropped`")
 
 
+def r7(ctx, r):
+    """journal record layout: the writer emits a field exactly when the replay decoder expects it (both decide by the op code)"""
+    fb = ctx.fb()
+    wl = kvf(ctx, "writeLogEntry")
+    ld = kvf(ctx, "load")
+    common.require_names(wl, ["op", "key", "value", "buffer"])
+    common.require_names(ld, ["op", "ptr", "end"])
+    # writer: flags controlling the optional fields
+    flags = {}
+    for e in wl.stmts():
+        if e.node.get("k") == "decl":
+            for v in e.node["vars"]:
+                if v["t"] in ("bool", "const bool") and v.get("init") is not None:
+                    flags[v["n"]] = (e, v["init"])
+    def ops_of(init):
+        """set of op characters if init is a disjunction of `op == 'c'` tests, else None"""
+        out = set()
+        def rec(n):
+            n = strip_casts(n)
+            if n.get("k") == "bin" and n.get("op") == "||":
+                return rec(n["lhs"]) and rec(n["rhs"])
+            cp = common.cmp_parts(n)
+            if cp and cp[0] == "==" and strip_casts(cp[1]).get("n") == "op" and const_value(cp[2]) is not None:
+                out.add(chr(const_value(cp[2])))
+                return True
+            return False
+        return out if rec(init) else None
+    # which flag guards which field: the block guarded by the flag appends value bytes / the 8-byte expiry
+    guards = {}
+    for b in wl.blocks.values():
+        c = strip_casts(b.cond) if b.cond is not None else None
+        if c is not None and c.get("k") == "var" and c["n"] in flags:
+            body = " ".join(show(x.node) for x in wl.blocks[b.succs[0]].elems if x.kind == "stmt")
+            if "value" in body and "expiry" not in body.lower():
+                guards["value"] = c["n"]
+            elif "expiry" in body.lower() and "value" not in body:
+                guards["expiry"] = c["n"]
+    if set(guards) != {"value", "expiry"}:
+        raise AnalysisBroken("writeLogEntry: optional-field guards not recognised (%s)" % guards)
+    # reader: ops whose arm reads a 4-byte value length / an 8-byte expiry
+    reader = {"value": set(), "expiry": set()}
+    arms = {}
+    for b in ld.blocks.values():
+        cp = common.cmp_parts(b.cond) if b.cond is not None else None
+        if cp and cp[0] == "==" and strip_casts(cp[1]).get("n") == "op" and const_value(cp[2]) is not None:
+            arms[chr(const_value(cp[2]))] = _body(ld, b.succs[0], stop_at_conds_on="op")
+    for opc, els in arms.items():
+        t = " ".join(show(x.node) for x in els)
+        if "memcpy(&valLen" in t or "valLen" in t:
+            reader["value"].add(opc)
+        if "memcpy(&expiryMs" in t or "expiryMs" in t:
+            reader["expiry"].add(opc)
+    if not reader["value"] or not reader["expiry"]:
+        raise AnalysisBroken("load(): arms reading valLen / expiryMs not recognised (%s)" % reader)
+    for fld in ("value", "expiry"):
+        e, init = flags[guards[fld]]
+        w_ops = ops_of(init)
+        r.instance()
+        r.expect(w_ops is not None and w_ops == reader[fld], wl, e, "journal layout: %s field" % fld, "writeLogEntry emits the %s field when `%s` (%s), while load() expects it exactly for the records with op in %s: a record written without the field "
+                 "(e.g. an empty value) is mis-decoded or skipped at replay — the write is lost, or an older value resurfaces, after a restart" % (fld, show(init)[:60], "ops %s" % sorted(w_ops) if w_ops is not None else "not a function of the op code alone", sorted(reader[fld])),
+                 okdesc="%s field: writer ops %s = reader ops %s" % (fld, sorted(w_ops) if w_ops else "?", sorted(reader[fld])))
+    # every op the API journals has a replay arm (the last arm is the else)
+    written = set()
+    for f in fb.methods_of(KV):
+        if not f.ok:
+            continue
+        for e in f.stmts():
+            if e.node.get("k") == "mcall" and e.node.get("callee") == KV + "::writeLogEntry" and e.node.get("args"):
+                cv = const_value(strip_casts(e.node["args"][0]))
+                if cv is not None:
+                    written.add(chr(cv))
+    r.instance()
+    r.expect(len(written) >= 4 and len(written - set(arms)) <= 1, ld, None, "journal ops", "the API journals the ops %s but load() has arms for %s" % (sorted(written), sorted(arms)), okdesc="ops journalled %s; replay arms %s + else" % (sorted(written), sorted(arms)))
+
+
+def _body(f, bid, stop_at_conds_on=None):
+    out, seen, work = [], set(), [bid]
+    while work:
+        b = work.pop()
+        if b is None or b in seen or len(seen) > 40:
+            continue
+        blk = f.blocks[b]
+        if stop_at_conds_on and blk.cond is not None and common.cmp_parts(blk.cond) and strip_casts(common.cmp_parts(blk.cond)[1]).get("n") == stop_at_conds_on:
+            continue
+        seen.add(b)
+        out.extend(x for x in blk.elems if x.kind == "stmt")
+        # stay inside the arm: do not follow back edges to the loop head (blocks with a lower line than the arm start are skipped)
+        for s_ in blk.succs:
+            if s_ is not None and s_ not in seen:
+                nxt = f.blocks[s_]
+                l0 = next((x.line for x in blk.elems if x.line), 0)
+                l1 = next((x.line for x in nxt.elems if x.line), 0)
+                if l1 and l0 and l1 < l0:
+                    continue
+                work.append(s_)
+    return out
+
+
+def r8(ctx, r):
+    """a key that leaves the value map leaves the expiry map in the same step"""
+    fb, la = ctx.fb(), ctx.locks()
+    n = 0
+    for f in fb.methods_of(KV):
+        if not f.ok:
+            continue
+        kv_er = common.member_calls_on(f, KV + "::_kv", ("erase", "clear"))
+        ex_er = common.member_calls_on(f, KV + "::_expiry", ("erase", "clear"))
+        for e in kv_er:
+            n += 1
+            r.instance()
+            ok = any(x.block is e.block for x in ex_er) or any(elem_dominates(f, x, e) for x in ex_er) or (bool(ex_er) and search(f, e, "exit", stop=lambda y: y in ex_er, eh=False) is None)
+            r.expect(ok, f, e, "expiry entry orphaned", "%s removes a key from the value map (`%s`) without removing its expiry entry in the same step: the orphaned entry outlives the key, is counted as an expired key by "
+                     "size() once its old deadline passes (size() too small, can wrap), and applies the old deadline to a later re-creation of the key that bypasses the TTL path" % (short(f.name), show(e.node)[:40]),
+                     okdesc="%s: _kv and _expiry erased together" % last(f.name))
+    if n < 8:
+        raise AnalysisBroken("only %d removals from _kv found (floor 8)" % n)
+
+
+
 def run(ctx, ck):
     ck.run_rule("C12-R1", "lock table of the store; cache maintained only under the store mutex", "A1 guarded-by + lock order", lambda r: r1(ctx, r))
     ck.run_rule("C12-R2", "every read path applies the expiry backstop", "A5 predicate abstraction, closed set of read APIs", lambda r: r2(ctx, r))
     ck.run_rule("C12-R3", "plain write clears expiry; TTL write stores/caches/journals one and the same expiry", "A2 + dataflow shape", lambda r: r3(ctx, r))
     ck.run_rule("C12-R4", "expiry is absolute and persisted; replay is clock-independent with one final sweep", "A5 + A2", lambda r: r4(ctx, r))
     ck.run_rule("C12-R5", "eviction is generation-guarded", "A5", lambda r: r5(ctx, r))
+    ck.run_rule("C12-R7", "journal record layout: writer and replay decide every optional field by the op code, identically", "A10 writer/reader table agreement", lambda r: r7(ctx, r))
+    ck.run_rule("C12-R8", "a key leaves the value map and the expiry map together", "A2 pairing", lambda r: r8(ctx, r))
     ck.run_rule("C12-R6", "keys dropped at compaction never resurrect", "A2", lambda r: r6(ctx, r))
